@@ -51,6 +51,10 @@ type c03Resume struct {
 type c03Overlap struct {
 	Damage string `json:"damage"`
 	Join   bool   `json:"join"`
+	// AfterRename: instead of holding a CDN response, the server thread that renames a file into the blob store is
+	// paused for half a second right after the rename (strace delay_exit on rename*), and the second model is pulled
+	// inside that pause: whatever is published under a digest name must be verified content at that moment already
+	AfterRename bool `json:"after_rename,omitempty"`
 }
 
 // c03Relay: three pulls of the same name hand over to one another. Pull A's first CDN request is answered 500, so the
@@ -286,6 +290,9 @@ func c03Gen(r *kit.Rand, idx int, tiny []byte) c03Case {
 		} else if r.Chance(1, 6) {
 			ov := &c03Overlap{Damage: kit.Pick(r, []string{"flip", "no-length", "none", "flip"})}
 			ov.Join = ov.Damage != "no-length" && r.Chance(1, 4)
+			if !ov.Join && ov.Damage != "no-length" && r.Chance(1, 2) {
+				ov.AfterRename = true
+			}
 			at.Stream, at.Disconnect, at.Resume, at.Faults = true, 0, nil, nil
 			switch ov.Damage {
 			case "flip":
@@ -582,6 +589,9 @@ func c03RunOverlap(srv *Srv, reg *FakeReg, full string, ver c03Version, ov *c03O
 	second := reg.RegHost + "/" + c03SecondName
 	secondManifest := filepath.Join(srv.Models, "manifests", reg.RegHost, "verif", "second", "latest")
 
+	if ov.AfterRename {
+		return c03RunAfterRename(srv, reg, full, shared, second, secondManifest, ov, rep)
+	}
 	held, release := make(chan struct{}), make(chan struct{})
 	var once sync.Once
 	reg.mu.Lock()
@@ -789,6 +799,58 @@ func c03RunRelay(srv *Srv, reg *FakeReg, full string, ver c03Version, rl *c03Rel
 	return res, ""
 }
 
+// c03RunAfterRename: see c03Overlap.AfterRename.
+func c03RunAfterRename(srv *Srv, reg *FakeReg, full string, shared c03Layer, second, secondManifest string, ov *c03Overlap, rep *kit.Report) (res apiResult, vs []c03Viol, inconclusive string) {
+	renamed := make(chan struct{})
+	var once sync.Once
+	dst := "/blobs/" + blobFile(shared.Digest) + "\""
+	tr, err := startPauseTracer(srv.cmd.Process.Pid, srv.Models, "renameat,renameat2,rename", 500000, func(name, rest string) {
+		// renameat(AT_FDCWD<..>, ".../sha256-<hex>-partial", AT_FDCWD<..>, ".../sha256-<hex>") = 0
+		if i := strings.LastIndex(rest, dst); i > 0 && strings.Contains(rest[:i], "-partial") && !strings.Contains(rest, ") = -1") {
+			once.Do(func() { close(renamed) })
+		}
+	})
+	if err != nil {
+		return res, nil, "pause tracer: " + err.Error()
+	}
+	defer func() { tr.Finish(srv.Alive()) }()
+	judge := func(resB apiResult, when string) {
+		raw, err := os.ReadFile(secondManifest)
+		switch {
+		case resB.OK() && err != nil:
+			vs = append(vs, c03Viol{"c03:success-without-manifest", fmt.Sprintf("second model (%s): reported success but %v", when, err)})
+		case err == nil:
+			_, problems, parsed := checkManifest(srv.Models, raw)
+			if parsed && len(problems) > 0 {
+				sig := "c03:failed-pull-left-broken-model"
+				if resB.OK() {
+					sig = "c03:success-with-bad-layer:shared-layer-published-before-verification"
+				}
+				vs = append(vs, c03Viol{sig, fmt.Sprintf("second model, pulled while the thread that had just renamed the shared layer %s (%s in that pull) into the blob store was paused; %s: result ok=%v err=%q, but: %s", short(shared.Digest), ov.Damage, when, resB.OK(), resB.Err, strings.Join(problems, "; "))})
+			}
+		}
+	}
+	done := make(chan apiResult, 1)
+	go func() { done <- srv.Pull(full, true, nil) }()
+	select {
+	case <-renamed:
+		rep.Count("after_rename_pause_reached_"+ov.Damage, 1)
+		resB := srv.Pull(second, false, nil)
+		judge(resB, "inside the pause")
+		res = <-done
+		if len(vs) == 0 {
+			judge(resB, "after the first pull returned")
+		}
+		rep.Count(fmt.Sprintf("after_rename_second_ok_%v", resB.OK()), 1)
+	case res = <-done:
+		// the first pull never published the layer (it rejected the damaged download before the rename)
+		rep.Count("after_rename_layer_never_published_"+ov.Damage, 1)
+	case <-time.After(90 * time.Second):
+		return res, nil, "after-rename overlap: neither the rename nor the end of the first pull was seen within 90 s"
+	}
+	return res, vs, ""
+}
+
 func sameManifest(a, b manifestDoc) bool {
 	if a.Config.Digest != b.Config.Digest || a.Config.Size != b.Config.Size || a.Config.MediaType != b.Config.MediaType || len(a.Layers) != len(b.Layers) {
 		return false
@@ -870,7 +932,7 @@ func runC03() {
 					ks = append(ks, fmt.Sprintf("relay-%s-%d-%d-%d", a.Relay.Damage, a.Relay.LeaveMs, a.Relay.StartBMs, a.Relay.StartCMs))
 				}
 				if a.Overlap != nil {
-					ks = append(ks, fmt.Sprintf("overlap-%s-join%v", a.Overlap.Damage, a.Overlap.Join))
+					ks = append(ks, fmt.Sprintf("overlap-%s-join%v-afterrename%v", a.Overlap.Damage, a.Overlap.Join, a.Overlap.AfterRename))
 				}
 				kinds = append(kinds, strings.Join(ks, "+"))
 			}
